@@ -16,7 +16,7 @@ from cddsim.runner import load_known
 from cddsim.world import SimWorld
 
 ID = "C12"
-LEVEL = "exploration"
+LEVEL = "fault_enumeration"
 RULE = ("Hypothesis-drawn projects: class file, function/method file, argparse file; each named target present with its "
         "own interface, absent from an existing file, in an empty file, or file missing; unrelated surrounding "
         "definitions. Histories of 1..5 steps: sync --truth X (the truth's target present) through the real CLI, user "
@@ -48,7 +48,7 @@ def probes():
     return ["sync_ok", "class_target_rewritten", "target_appended_to_existing_file", "empty_file_filled",
             "missing_file_created", "second_sync_noop_checked", "truth_class", "truth_function", "truth_argparse",
             "fault_fired", "crash_fired", "recovery_delete", "recovery_empty", "recovery_restore", "convergence_checked",
-            "user_edit", "restart", "method_target", "black_absent", "decoy_same_name_nested"]
+            "user_edit", "restart", "method_target", "black_absent", "decoy_same_name_nested", "third_sync_noop_checked"]
 
 
 # ------------------------------------------------------------------------------------ generators
@@ -91,11 +91,12 @@ def step(draw):
 
 
 @st.composite
-def plans(draw):
+def plans(draw, enum_every=5):
     p = draw(project())
     steps = [{"op": "sync", "truth": p["first_truth"], "wrap": draw(st.booleans()), "fault": None, "recovery": "restore"}]
     steps += draw(st.lists(step(), min_size=0, max_size=4))
-    return {"project": p, "steps": steps, "black": draw(st.sampled_from((True, True, True, False)))}
+    return {"project": p, "steps": steps, "black": draw(st.sampled_from((True, True, True, False))),
+            "enum": draw(st.integers(0, enum_every - 1)) == enum_every - 1 if enum_every else False}
 
 
 # -------------------------------------------------------------------------------------- renderer
@@ -370,6 +371,13 @@ def simulate(plan):
                 reh = ops.invoke(world, op, black=black)
                 world.restore(cp)
                 fault = _resolve_fault(stp["fault"], reh.io_events())
+            if plan.get("enum") and si == len(plan["steps"]) - 1 and not hyp.SHRINKING[0]:
+                reh = ops.invoke(world, op, black=black)
+                world.restore(cp)
+                if reh.ok:
+                    res.violations += _enumerate(world, plan, p, op, truth, tfile, cp, pre_texts, reh.io_events(), listed,
+                                                 black, stats, probe, bump, si)
+                    world.restore(cp)
             before = world.snapshot()
             o = ops.invoke(world, op, faults=[fault] if fault else None, black=black)
             after = world.snapshot()
@@ -409,49 +417,26 @@ def simulate(plan):
                             o2.exc_type, (o2.exc_msg or "")[:120]),
                             "sig": {"what": "second_sync_raises", "exc": o2.exc_type, "truth": truth}})
                     viols += check_b6(after, world.snapshot(), o2.events, listed)
-            elif o.fired:
-                # simulated user recovery: bring damaged files back into the property's domain
-                for k in KINDS:
-                    t = world.read(FILES[k])
-                    if t is not None and t != "" and not _parses(t):
-                        how = stp.get("recovery", "restore")
-                        bump(probe, "recovery_" + how)
-                        if how == "delete":
-                            world.remove(FILES[k])
-                        elif how == "empty":
-                            world.write_files({FILES[k]: ""})
-                        else:
-                            prev = pre_texts[FILES[k]]
-                            if prev is None:
-                                world.remove(FILES[k])
-                            else:
-                                world.write_files({FILES[k]: prev})
-                # B7: after the last fault, one sync establishes B1-B4 and the next one B5
-                ttext2 = world.read(tfile)
-                if ttext2 is not None and _parses(ttext2) and _safe_parse(ttext2, truth, target_name(p, truth)) is not None:
-                    pre2 = {FILES[k]: world.read(FILES[k]) for k in KINDS}
-                    o3 = ops.invoke(world, op, black=black)
-                    stats["commands"] += 1
-                    bump(stats["outcomes"], "sync_after_recovery:" + o3.kind)
-                    bump(probe, "convergence_checked")
-                    if o3.ok:
-                        post3 = {FILES[k]: world.read(FILES[k]) for k in KINDS}
-                        v7 = check_sync(p, truth, pre2, post3, probe, bump, black)
-                        o4 = ops.invoke(world, op, black=black)
+                    if o2.ok and again == post_texts:
+                        # the state after the second run is again "after a sync --truth X": a further identical run
+                        # must be a no-op as well (catches alternation with period > 1)
+                        snap2 = world.snapshot()
+                        o3 = ops.invoke(world, op, black=black)
                         stats["commands"] += 1
-                        again = {FILES[k]: world.read(FILES[k]) for k in KINDS}
-                        if o4.ok and again != post3:
-                            ch = sorted(f for f in again if again[f] != post3[f])
-                            for f_ in ch:
-                                v7.append({"clause": "B5", "detail": "second sync after recovery changed %s" % f_,
-                                           "sig": _b5_sig(p, pre2, post3, again, f_)})
-                        for x in v7:
-                            x["detail"] = "[B7 convergence after fault+recovery] " + x["detail"]
-                        viols += v7
-                    else:
-                        viols.append({"clause": "B7", "detail": "sync after recovery failed: %s %s (at %s)" % (
-                            o3.exc_type, (o3.exc_msg or "")[:160], o3.exc_site),
-                            "sig": {"what": "sync_after_recovery_raises", "exc": o3.exc_type, "site": o3.exc_site}})
+                        bump(probe, "third_sync_noop_checked")
+                        third = {FILES[k]: world.read(FILES[k]) for k in KINDS}
+                        if o3.ok and third != again:
+                            for f_ in sorted(f for f in third if third[f] != again[f]):
+                                viols.append({"clause": "B5", "detail": "third identical sync changed %s (the second did not)" % f_,
+                                              "sig": dict(_b5_sig(p, pre_texts, again, third, f_), run=3)})
+                        elif not o3.ok:
+                            viols.append({"clause": "B5", "detail": "third identical sync failed: %s %s" % (
+                                o3.exc_type, (o3.exc_msg or "")[:120]),
+                                "sig": {"what": "third_sync_raises", "exc": o3.exc_type, "truth": truth}})
+                        viols += check_b6(snap2, world.snapshot(), o3.events, listed)
+            elif o.fired:
+                viols += _recover_and_converge(world, p, op, truth, tfile, pre_texts, stp.get("recovery", "restore"), black,
+                                               stats, probe, bump)
             elif not o.ok:
                 viols.append({"clause": "B1", "detail": "fault-free sync failed: %s: %s (at %s)" % (
                     o.exc_type, (o.exc_msg or "")[:200], o.exc_site),
@@ -494,6 +479,99 @@ def _same_ast(a, b):
         return ast.dump(ast.parse(a)) == ast.dump(ast.parse(b))
     except (SyntaxError, ValueError, TypeError):
         return False
+
+
+def _recover_and_converge(world, p, op, truth, tfile, pre_texts, how, black, stats, probe, bump):
+    """After a faulted sync: the simulated user brings torn files back into the property's domain (delete / empty /
+    restore), then B7: one sync establishes B1-B4 and the next one B5."""
+    viols = []
+    for k in KINDS:
+        t = world.read(FILES[k])
+        if t is not None and t != "" and not _parses(t):
+            bump(probe, "recovery_" + how)
+            if how == "delete":
+                world.remove(FILES[k])
+            elif how == "empty":
+                world.write_files({FILES[k]: ""})
+            else:
+                prev = pre_texts[FILES[k]]
+                if prev is None:
+                    world.remove(FILES[k])
+                else:
+                    world.write_files({FILES[k]: prev})
+    ttext2 = world.read(tfile)
+    if ttext2 is not None and _parses(ttext2) and _safe_parse(ttext2, truth, target_name(p, truth)) is not None:
+        pre2 = {FILES[k]: world.read(FILES[k]) for k in KINDS}
+        o3 = ops.invoke(world, op, black=black)
+        stats["commands"] += 1
+        bump(stats["outcomes"], "sync_after_recovery:" + o3.kind)
+        bump(probe, "convergence_checked")
+        if o3.ok:
+            post3 = {FILES[k]: world.read(FILES[k]) for k in KINDS}
+            v7 = check_sync(p, truth, pre2, post3, probe, bump, black)
+            o4 = ops.invoke(world, op, black=black)
+            stats["commands"] += 1
+            again = {FILES[k]: world.read(FILES[k]) for k in KINDS}
+            if o4.ok and again != post3:
+                for f_ in sorted(f for f in again if again[f] != post3[f]):
+                    v7.append({"clause": "B5", "detail": "second sync after recovery changed %s" % f_,
+                               "sig": _b5_sig(p, pre2, post3, again, f_)})
+            for x in v7:
+                x["detail"] = "[B7 convergence after fault+recovery] " + x["detail"]
+            viols += v7
+        else:
+            viols.append({"clause": "B7", "detail": "sync after recovery failed: %s %s (at %s)" % (
+                o3.exc_type, (o3.exc_msg or "")[:160], o3.exc_site),
+                "sig": {"what": "sync_after_recovery_raises", "exc": o3.exc_type, "site": o3.exc_site}})
+    return viols
+
+
+def _enumerate(world, plan, p, op, truth, tfile, cp, pre_texts, reh_events, listed, black, stats, probe, bump, si):
+    """Every seam call of this sync faulted once per kind (error, crash, torn close): B6 on the resulting world, then
+    recovery and the convergence clause B7.  Violations are emitted concrete (the plan with that one fault)."""
+    out = []
+    targets = []
+    for e in reh_events:
+        for kind in ("err", "crash"):
+            targets.append((e, kind))
+        if e["kind"] == "close_w" and e.get("nbytes", 0) > 1:
+            targets.append((e, "tear"))
+    for ti, (e, kind) in enumerate(targets):
+        world.restore(cp)
+        f = {"seam": "io", "at": e["io"], "kind": "crash" if kind == "crash" else "err"}
+        if kind != "crash":
+            f["errno"] = seams.ERRNOS_FOR.get(e["kind"], ("EIO",))[0]
+            if e["kind"] == "close_w":
+                f["keep"] = 0.5 if kind == "tear" else 0.0
+        before = world.snapshot()
+        o = ops.invoke(world, op, faults=[f], black=black)
+        after = world.snapshot()
+        stats["evaluations"] += 1
+        bump(stats, "enumerated_faults")
+        for fr in o.fired:
+            bump(stats["faults_fired"], "%s@%s" % (fr["kind"] if fr["kind"] == "crash" else fr.get("errno", "err"), fr["event"]))
+            stats["fault_sites"].append("%s:%s" % (fr["event"], fr.get("site")))
+            bump(probe, "fault_fired")
+            if fr["kind"] == "crash":
+                bump(probe, "crash_fired")
+        vs = check_b6(before, after, o.events, listed)
+        if o.fired:
+            vs += _recover_and_converge(world, p, op, truth, tfile, pre_texts, ("restore", "delete", "empty")[ti % 3], black,
+                                        stats, probe, bump)
+        known = load_known(ID)
+        from cddsim.runner import match_known
+        for x in vs:
+            if match_known(known, x) is not None:
+                continue
+            p2 = dict(plan, enum=False)
+            p2["steps"] = [dict(s_) for s_ in plan["steps"][:si + 1]]
+            p2["steps"][-1]["fault"] = f
+            p2["steps"][-1]["recovery"] = ("restore", "delete", "empty")[ti % 3]
+            x["detail"] = "enumerated fault %s at seam call %d (%s %s): %s" % (kind, e["io"], e["kind"], e["path"], x["detail"])
+            x["final"] = True
+            x["trace"] = {"kind": "c12-plan", "plan": p2}
+            out.append(x)
+    return out
 
 
 def _parses(text):
@@ -622,7 +700,8 @@ def plan(tier, seed, scale=1.0):
 
 def work(task):
     known = load_known(ID)
-    return explore(plans(), simulate, task["seed"], task["n"], known, batch=28 if task["tier"] == "quick" else 60,
+    return explore(plans(enum_every=5 if task["tier"] == "quick" else 2), simulate, task["seed"], task["n"], known,
+                   batch=28 if task["tier"] == "quick" else 60,
                    max_shrink_runs=300, max_shrink_s=60)
 
 
